@@ -13,7 +13,10 @@ Correspondence with the Rust code:
                           **dangling symlink** sits (`hasLink`; target in a non-existing directory) — `remove_file` and a
                           `rename` onto it remove it.  A file recorded at a path of `dirs`/`links` (impossible on a real file
                           system) is invisible to every operation.  For reads and the listing a dangling symlink is like
-                          nothing at all (`NotFound`; not `is_file`).
+                          nothing at all (`NotFound`; not `is_file`).  `parentObj`: a regular file or a dangling symlink
+                          where a parent directory of the entry path (`<type>`, `<type>/<xx>`) belongs — every cache
+                          operation on the ids below fails (`ENOTDIR` / `ENOENT`; `create_dir_all` fails), all errors are
+                          only logged.
 * `cReadFull`           — `Cache::read_full`: `fs::read`, `NotFound` ⇒ `Ok(None)` (miss); a directory ⇒ `Err` (`EISDIR`);
                           **no size check**: whatever file is there is served.  `CachedBackend::read_full` logs an error and
                           goes on like after a miss (`readFullThrough`).
@@ -68,6 +71,16 @@ def hasLink (c : CD) (p : Path) : Bool := c.links.contains p
 /-- `remove_file` / `rename` onto a symlink: the link is gone -/
 def unlink (c : CD) (p : Path) : CD := { c with links := c.links.filter (fun q => q != p) }
 
+/-- What sits where a PARENT directory of the entry path (`<type>` or `<type>/<xx>`) belongs, if it is not a directory:
+`some true` — a regular file (path resolution fails with `ENOTDIR`), `some false` — a dangling symlink (`ENOENT`);
+`none` — nothing in the way.  Then nothing can exist below, `create_dir_all` fails, every open / remove fails. -/
+def parentObj (c : CD) (t : FileType) (id : Name) : Option Bool :=
+  if (fget c.files [t.dirname]).isSome then some true
+  else if hasLink c [t.dirname] then some false
+  else if (fget c.files [t.dirname, id.take 2]).isSome then some true
+  else if hasLink c [t.dirname, id.take 2] then some false
+  else none
+
 /-- outcome of a cache read: `Ok(Some(data))` / `Ok(None)` / `Err(_)` -/
 inductive PRes where
   | hit (b : Bytes)
@@ -78,7 +91,9 @@ inductive PRes where
 /-- `Cache::read_full`: `fs::read` — a directory at the path: `EISDIR` (an error, not `NotFound`); a dangling symlink:
 `ENOENT` = `NotFound`, a miss. -/
 def cReadFull (dirs : List Path) (c : CD) (t : FileType) (id : Name) : PRes :=
-  if hasDir dirs (cpath t id) then .error
+  if parentObj c t id = some true then .error       -- `ENOTDIR`
+  else if parentObj c t id = some false then .miss  -- `ENOENT` = `NotFound`
+  else if hasDir dirs (cpath t id) then .error
   else if hasLink c (cpath t id) then .miss
   else match fget c.files (cpath t id) with
     | some d => .hit d
@@ -86,12 +101,15 @@ def cReadFull (dirs : List Path) (c : CD) (t : FileType) (id : Name) : PRes :=
 
 /-- what a cache read can serve: the regular file at the entry path, unless a directory or a dangling symlink sits there -/
 def cHit (dirs : List Path) (c : CD) (t : FileType) (id : Name) : Option Bytes :=
-  if hasDir dirs (cpath t id) || hasLink c (cpath t id) then none else fget c.files (cpath t id)
+  if (parentObj c t id).isSome || hasDir dirs (cpath t id) || hasLink c (cpath t id) then none
+  else fget c.files (cpath t id)
 
 /-- `Cache::read_partial`: on a directory `File::open` and `seek` succeed and `read_exact` fails with `EISDIR` — except
 for an empty buffer, which is "read" without a system call (a hit with no bytes).  A dangling symlink: `NotFound`. -/
 def cReadPartial (dirs : List Path) (c : CD) (t : FileType) (id : Name) (off len : Nat) : PRes :=
-  if hasDir dirs (cpath t id) then (if len = 0 then .hit [] else .error)
+  if parentObj c t id = some true then .error       -- `File::open`: `ENOTDIR`
+  else if parentObj c t id = some false then .miss  -- `ENOENT`
+  else if hasDir dirs (cpath t id) then (if len = 0 then .hit [] else .error)
   else if hasLink c (cpath t id) then .miss
   else match fget c.files (cpath t id) with
     | none => .miss
@@ -102,6 +120,7 @@ def cWriteFile (c : FS) (t : FileType) (id : Name) (d : Bytes) : FS :=
   fput (fdel (fput c (ctmp t id) d) (ctmp t id)) (cpath t id) d
 
 /-- `Cache::write_bytes` (every caller only logs its error):
+* a regular file or a dangling symlink where `<type>` or `<type>/<xx>` belongs — `create_dir_all` fails: nothing changes;
 * a directory at the temp path — `open` fails (`EISDIR`), the clean-up `remove_file` too: nothing changes;
 * a dangling symlink at the temp path — `open(create)` follows it and fails (`ENOENT`), the clean-up `remove_file`
   **removes the link**: nothing written this time;
@@ -109,21 +128,23 @@ def cWriteFile (c : FS) (t : FileType) (id : Name) (d : Bytes) : FS :=
   (no clean-up after a failed rename);
 * otherwise the entry is (re)placed — `rename` replaces a dangling symlink at the entry path like a file. -/
 def cWrite (dirs : List Path) (c : CD) (t : FileType) (id : Name) (d : Bytes) : CD :=
-  if hasDir dirs (ctmp t id) then c
+  if (parentObj c t id).isSome then c     -- `create_dir_all(<type>/<xx>)` fails
+  else if hasDir dirs (ctmp t id) then c
   else if hasLink c (ctmp t id) then unlink c (ctmp t id)
   else if hasDir dirs (cpath t id) then { c with files := fput c.files (ctmp t id) d }
   else { files := cWriteFile c.files t id d, links := (unlink c (cpath t id)).links }
 
-/-- `Cache::remove`: `fs::remove_file` — fails on a directory (`EISDIR`, nothing changes); removes a regular file or a
-symlink. -/
+/-- `Cache::remove`: `fs::remove_file` — fails on a directory (`EISDIR`) and below a non-directory (nothing changes);
+removes a regular file or a symlink. -/
 def cRemove (dirs : List Path) (c : CD) (t : FileType) (id : Name) : CD :=
-  if hasDir dirs (cpath t id) then c
+  if (parentObj c t id).isSome || hasDir dirs (cpath t id) then c
   else { files := fdel c.files (cpath t id), links := (unlink c (cpath t id)).links }
 
 def cEntry (L : Nat) (dirs : List Path) (c : CD) (t : FileType) (e : Path × Bytes) : Option (Name × Nat) :=
   match e.1 with
   | [d, sub, n] =>
     if d = t.dirname ∧ isCacheName L n = true ∧ sub = n.take 2 ∧ hasDir dirs e.1 = false ∧ hasLink c e.1 = false
+        ∧ parentObj c t n = none
     then some (n, e.2.length) else none
   | _ => none
 
